@@ -638,6 +638,48 @@ def _hidden_randomness(model, rep):
                 given = True
             q = fn.short()
             cons = f"{q}:{d.rsplit('.', 1)[1]}:start-vector"
+            # ... and the supplied vector has to be *generic*: a constant
+            # vector (np.ones) is invariant under every symmetry of a
+            # symmetric mesh - the Krylov space never leaves the symmetric
+            # subspace and eigenvalues are skipped - and lies in the kernel
+            # of an unconstrained stiffness matrix (ARPACK: 'starting vector
+            # is zero').  Accepted: a draw from a generator with a literal
+            # seed.
+            if given:
+                fdefs = {x.targets[0].id: x.value for x in ast.walk(fn.node)
+                         if isinstance(x, ast.Assign) and len(x.targets) == 1
+                         and isinstance(x.targets[0], ast.Name)}
+                vals = [k.value for k in c.keywords if k.arg == kw]
+                for k in c.keywords:
+                    if k.arg is None:
+                        for x in ast.walk(k.value):
+                            if isinstance(x, ast.Dict):
+                                vals += [v for kk, v in zip(x.keys, x.values)
+                                         if isinstance(kk, ast.Constant)
+                                         and kk.value == kw]
+                vals = [fdefs.get(v.id, v) if isinstance(v, ast.Name) else v
+                        for v in vals]
+                const = [v for v in vals if any(
+                    isinstance(y, ast.Call) and src(y.func).split(".")[-1]
+                    in ("ones", "zeros", "full", "ones_like", "zeros_like",
+                        "arange", "linspace") for y in ast.walk(v))
+                    and not any(isinstance(y, ast.Call) and src(
+                        y.func).split(".")[-1] in ("default_rng",
+                                                   "RandomState")
+                        for y in ast.walk(v))]
+                cons2 = f"{q}:{d.rsplit('.', 1)[1]}:start-vector-generic"
+                if const:
+                    rep.fail(R4, fn.path, q, cons2,
+                             f"the start vector '{src(const[0])[:40]}' is a "
+                             f"constant vector: invariant under the "
+                             f"symmetries of a symmetric mesh (modes odd "
+                             f"under a symmetry are skipped: ex31 returns "
+                             f"198.98 instead of the second 141.035) and in "
+                             f"the kernel of an unconstrained stiffness "
+                             f"matrix (ArpackError -9)", c.lineno)
+                elif vals:
+                    rep.ok(R4, cons2, "start vector drawn from a generator "
+                           "with a fixed seed")
             if given:
                 rep.ok(R4, cons, f"{kw} is supplied")
             else:
@@ -936,13 +978,28 @@ _QP = "skfem/element/element_quad/element_quadp.py"
 _LP = "skfem/element/element_line/element_line_pp.py"
 _GUARD = "        if self._X.shape != X.shape or (self._X != X).any():"
 MUTANTS = [
+    ("symmetric eigensolver starts from the constant vector",
+     (_U, "        v0 = np.random.default_rng(0).standard_normal(K.shape[0])"
+      "\n        return eigsh(", "        v0 = np.ones(K.shape[0])\n"
+      "        return eigsh("), "C15-R4"),
+    ("symmetric eigensolver hands a non-canonical mass matrix to ARPACK",
+     (_U, "        if not getattr(M, 'has_canonical_format', True):\n"
+      "            M = M.copy()  # regular mode factorises M through a view"
+      "\n        # a fixed start vector: ARPACK draws a random one "
+      "otherwise; it must\n        # be generic (a constant vector is "
+      "invariant under the symmetries of\n        # the mesh and in the "
+      "kernel of an unconstrained stiffness matrix)\n        v0 = "
+      "np.random.default_rng(0).standard_normal(K.shape[0])\n        "
+      "return eigsh(",
+      "        v0 = np.random.default_rng(0).standard_normal(K.shape[0])\n"
+      "        return eigsh("), "C15-R5"),
     ("direct solver hands a non-canonical operand to spsolve",
      (_U, "        if not getattr(A, 'has_canonical_format', True):\n            A = A.copy()  "
       "# spsolve sorts the indices of its operand in place\n", ""),
      "C15-R5"),
     ("symmetric eigensolver leaves the start vector to ARPACK",
-     (_U, "        return eigsh(K, M=M, **{'v0': np.ones(K.shape[0]),\n"
-      "                                **params, **solve_time_kwargs})",
+     (_U, "        return eigsh(K, M=M, **{'v0': v0, **params, "
+      "**solve_time_kwargs})",
       "        return eigsh(K, M=M, **{**params, **solve_time_kwargs})"),
      "C15-R4"),
     ("affine normals gathered into an uninitialised buffer",
@@ -1103,10 +1160,10 @@ MUTANTS = [
 ]
 TWINS = [
     ("eigensolver start vector set into the parameter dictionary",
-     (_U, "        return eigsh(K, M=M, **{'v0': np.ones(K.shape[0]),\n"
-      "                                **params, **solve_time_kwargs})",
+     (_U, "        return eigsh(K, M=M, **{'v0': v0, **params, "
+      "**solve_time_kwargs})",
       "        opts = {**params, **solve_time_kwargs}\n"
-      "        opts.setdefault('v0', np.ones(K.shape[0]))\n"
+      "        opts.setdefault('v0', v0)\n"
       "        return eigsh(K, M=M, **opts)")),
     ("direct solver always copies its operand",
      (_U, "        if not getattr(A, 'has_canonical_format', True):\n            A = A.copy()  "
